@@ -1,145 +1,79 @@
-(* C16: gmt2sec (sec2gmt n) = n for every instant of the years 1..9999: the ISO-8601 text printed by
-   goTimeToFormattedTime is parsed back by the strptime model (pbnjay parts loop + time.Parse field rules)
-   to exactly the same instant. *)
-From Miller Require Import Base.Bytes C16.Model C16.CivilProofs C16.TextProofs C16.Proofs.
+(* C16: gmt2sec (sec2gmt n) = n for every instant of the years 1..9999, with 0..9 decimals, and the same for the
+   local-time text: instances of the general format law (FormatProofs.v) for the ISO-8601 / local formats, once the text
+   printed by goTimeToFormattedTime is shown to be the rendering of those formats. *)
+From Miller Require Import Base.Bytes C16.Model C16.Format C16.CivilProofs C16.TextProofs C16.Proofs C16.FormatProofs.
 Open Scope char_scope.
 Open Scope Z_scope.
 
-Ltac eval_eqb :=
-  repeat match goal with
-         | |- context [Ascii.eqb ?a ?b] =>
-             let r := eval vm_compute in (Ascii.eqb a b) in change (Ascii.eqb a b) with r
-         end.
+Definition kdigit (k : nat) : ascii := digit (Z.of_nat k).
+Definition time_parts (loc : bool) (k : nat) : list part :=
+  match k with
+  | O => if loc then LOCAL_PARTS else ISO_PARTS
+  | _ => if loc then local_parts_k (kdigit k) else iso_parts_k (kdigit k)
+  end.
 
-Lemma find_sub_digits1 l0 ds rest :
-  forallb is_digit ds = true -> is_digit l0 = false -> find_sub [l0] (ds ++ l0 :: rest) = Some (ds, rest).
-Proof. intros Hd Hl. exact (find_sub_digits l0 [] ds rest Hd Hl). Qed.
-
-Lemma parse_step c l0 w ps ds after acc acc' :
-  code_width c = Some w -> forallb is_digit ds = true -> is_digit l0 = false ->
-  set_field c ds w acc = Some acc' ->
-  parse_parts ((c, [l0]) :: ps) (ds ++ l0 :: after) acc = parse_parts ps after acc'.
+Lemma field_frac k x ns : (1 <= k <= 9)%nat ->
+  field (kdigit k) x ns = digs 2 (tm_s x) ++ "." :: digs k (ns / pow10 (9 - k)).
 Proof.
-  intros Hw Hd Hl Hs. cbn [parse_parts]. rewrite Hw. rewrite (find_sub_digits1 l0 ds after Hd Hl). rewrite Hs. reflexivity.
+  intros Hk. assert (C : (k = 1 \/ k = 2 \/ k = 3 \/ k = 4 \/ k = 5 \/ k = 6 \/ k = 7 \/ k = 8 \/ k = 9)%nat) by lia.
+  destruct C as [->|[->|[->|[->|[->|[->|[->|[->| ->]]]]]]]]; reflexivity.
 Qed.
 
-Lemma parse_digits_digs w v : (1 <= w)%nat -> 0 <= v < 10 ^ Z.of_nat w -> parse_digits (digs w v) = Some v.
+Lemma fmt_time_render loc t ns k : LO <= t <= HI -> 0 <= ns < 1000000000 -> (k <= 9)%nat ->
+  fmt_time loc t ns (Z.of_nat k) = render (time_parts loc k) (tm_of_sec t) ns.
 Proof.
-  intros Hw Hv. unfold parse_digits. rewrite digs_digits, parse_digs by exact Hv.
-  destruct (digs w v) eqn:E; [|reflexivity].
-  apply (f_equal (@List.length ascii)) in E. rewrite digs_length in E. cbn [List.length] in E. lia.
-Qed.
-
-Lemma set_field_digs c w v acc :
-  (1 <= w)%nat -> 0 <= v < 10 ^ Z.of_nat w -> set_field c (digs w v) w acc = upd c v 0 acc.
-Proof.
-  intros Hw Hv. unfold set_field, zero_pad_left. rewrite digs_length, Nat.leb_refl.
-  rewrite firstn_all2 by (rewrite digs_length; lia). rewrite skipn_all2 by (rewrite digs_length; lia).
-  rewrite digs_length, Nat.eqb_refl. cbn [negb]. rewrite parse_digits_digs by assumption.
-  destruct (Ascii.eqb c "S"); reflexivity.
-Qed.
-
-Definition ISO_PARTS : list (ascii * bytes) :=
-  [("Y", ["-"]); ("m", ["-"]); ("d", ["T"]); ("H", [":"]); ("M", [":"]); ("S", ["Z"])].
-
-Lemma iso_fmt_parts :
-  lit_until_pct ISO_FMT = ([], ISO_FMT) /\ fmt_parts (S (List.length ISO_FMT)) ISO_FMT = Some ISO_PARTS
-  /\ parts_in_model ISO_PARTS = true.
-Proof. vm_compute. repeat split; reflexivity. Qed.
-
-Definition iso_text (y mo d h mi s : Z) : bytes :=
-  digs 4 y ++ "-" :: digs 2 mo ++ "-" :: digs 2 d ++ "T" :: digs 2 h ++ ":" :: digs 2 mi ++ ":" :: digs 2 s ++ ["Z"].
-
-Lemma pow4 : 10 ^ Z.of_nat 4 = 10000. Proof. reflexivity. Qed.
-Lemma pow2 : 10 ^ Z.of_nat 2 = 100. Proof. reflexivity. Qed.
-
-Lemma parse_iso y mo d h mi s :
-  0 <= y < 10000 -> 1 <= mo <= 12 -> 0 <= d < 100 -> 0 <= h < 24 -> 0 <= mi < 60 -> 0 <= s < 60 ->
-  parse_parts ISO_PARTS (iso_text y mo d h mi s) ptm0 =
-  Some (Some {| p_y := Some y; p_mo := Some mo; p_d := Some d; p_h := h; p_mi := mi; p_s := s; p_ns := 0; p_j := None |}).
-Proof.
-  intros Hy Hmo Hd Hh Hmi Hs. unfold ISO_PARTS, iso_text.
-  assert (Ry : 0 <= y < 10 ^ Z.of_nat 4) by (rewrite pow4; lia).
-  assert (R2 : forall v, 0 <= v < 100 -> 0 <= v < 10 ^ Z.of_nat 2) by (intros; rewrite pow2; lia).
-  (* Y *)
-  erewrite (parse_step "Y" "-" 4); [| reflexivity | apply digs_digits | reflexivity |
-    rewrite set_field_digs by (try exact Ry; lia); unfold upd; eval_eqb; cbn [p_y p_mo p_d p_h p_mi p_s p_ns p_j ptm0]; reflexivity].
-  (* m *)
-  erewrite (parse_step "m" "-" 2); [| reflexivity | apply digs_digits | reflexivity |
-    rewrite set_field_digs by (try (apply R2; lia); lia); unfold upd; eval_eqb;
-    replace ((1 <=? mo) && (mo <=? 12)) with true by (symmetry; apply andb_true_iff; split; apply Z.leb_le; lia);
-    cbn [p_y p_mo p_d p_h p_mi p_s p_ns p_j]; reflexivity].
-  (* d *)
-  erewrite (parse_step "d" "T" 2); [| reflexivity | apply digs_digits | reflexivity |
-    rewrite set_field_digs by (try (apply R2; lia); lia); unfold upd; eval_eqb;
-    cbn [p_y p_mo p_d p_h p_mi p_s p_ns p_j]; reflexivity].
-  (* H *)
-  erewrite (parse_step "H" ":" 2); [| reflexivity | apply digs_digits | reflexivity |
-    rewrite set_field_digs by (try (apply R2; lia); lia); unfold upd; eval_eqb;
-    replace (h <? 24) with true by (symmetry; apply Z.ltb_lt; lia);
-    cbn [p_y p_mo p_d p_h p_mi p_s p_ns p_j]; reflexivity].
-  (* M *)
-  erewrite (parse_step "M" ":" 2); [| reflexivity | apply digs_digits | reflexivity |
-    rewrite set_field_digs by (try (apply R2; lia); lia); unfold upd; eval_eqb;
-    replace (mi <? 60) with true by (symmetry; apply Z.ltb_lt; lia);
-    cbn [p_y p_mo p_d p_h p_mi p_s p_ns p_j]; reflexivity].
-  (* S *)
-  erewrite (parse_step "S" "Z" 2); [| reflexivity | apply digs_digits | reflexivity |
-    rewrite set_field_digs by (try (apply R2; lia); lia); unfold upd; eval_eqb;
-    replace (s <? 60) with true by (symmetry; apply Z.ltb_lt; lia);
-    cbn [p_y p_mo p_d p_h p_mi p_s p_ns p_j]; reflexivity].
-  reflexivity.
-Qed.
-
-Lemma strp_exact_iso y mo d h mi s :
-  1 <= y <= 9999 -> valid_date y mo d = true -> 0 <= h < 24 -> 0 <= mi < 60 -> 0 <= s < 60 ->
-  strp_exact (iso_text y mo d h mi s) ISO_FMT =
-  POk ((days_of_civil y mo d * 86400 + h * 3600 + mi * 60 + s) * 1000000000).
-Proof.
-  intros Hy Hv Hh Hmi Hs.
-  assert (Hmd : 1 <= mo <= 12 /\ 1 <= d <= days_in_month y mo /\ d <= 31).
-  { unfold valid_date in Hv. repeat (apply andb_true_iff in Hv; destruct Hv as [Hv ?]).
-    repeat match goal with H : (_ <=? _) = true |- _ => apply Z.leb_le in H end.
-    split; [lia|]. split; [lia|]. unfold days_in_month in *.
-    destruct (mo =? 2); [destruct (is_leap y); lia|]. destruct ((mo =? 4) || (mo =? 6) || (mo =? 9) || (mo =? 11)); lia. }
-  destruct Hmd as (Hmo & Hd & Hd31).
-  unfold strp_exact. destruct iso_fmt_parts as (E1 & E2 & E3). rewrite E1, E2, E3. cbn [negb].
-  cbn [prefixb List.length skipn].
-  rewrite parse_iso by lia.
-  unfold assemble. cbn [p_y p_mo p_d p_h p_mi p_s p_ns p_j].
-  replace ((d <? 1) || (days_in_month y mo <? d)) with false.
-  - cbn [negb]. cbv beta iota. f_equal. lia.
-  - symmetry. apply orb_false_iff. split; apply Z.ltb_ge; lia.
-Qed.
-
-Lemma sec2gmt_int_text n :
-  LO <= n <= HI ->
-  let x := tm_of_sec n in
-  sec2gmt_int n 0 = iso_text (tm_y x) (tm_mo x) (tm_d x) (tm_h x) (tm_mi x) (tm_s x).
-Proof.
-  intros Hn x. pose proof (tm_year_range n Hn) as Hy. pose proof (tm_of_sec_fields n) as Hf. cbv zeta in Hf.
-  fold x in Hy, Hf. destruct Hf as (Hv & Hh & Hmi & Hs).
-  assert (Hmd : 1 <= tm_mo x <= 12 /\ 1 <= tm_d x <= 31).
-  { unfold valid_date in Hv. repeat (apply andb_true_iff in Hv; destruct Hv as [Hv ?]).
-    repeat match goal with H : (_ <=? _) = true |- _ => apply Z.leb_le in H end.
-    split; [lia|]. split; [lia|]. unfold days_in_month in *.
-    destruct (tm_mo x =? 2); [destruct (is_leap (tm_y x)); lia|].
-    destruct ((tm_mo x =? 4) || (tm_mo x =? 6) || (tm_mo x =? 9) || (tm_mo x =? 11)); lia. }
-  unfold sec2gmt_int, fmt_time. fold x. change (clamp_nd 0) with O. cbv iota zeta.
-  unfold ymd_text, hms_text, iso_text.
+  intros Ht Hns Hk. pose proof (good_tm_of_sec t Ht) as G. destruct G as [Gy Gv Gh Gmi Gs].
+  destruct (valid_date_bounds _ _ _ Gv) as (Hm & Hd & Hd31).
+  unfold fmt_time. set (x := tm_of_sec t) in *.
+  assert (Ec : clamp_nd (Z.of_nat k) = k).
+  { unfold clamp_nd. destruct (Z.ltb_spec (Z.of_nat k) 0); [lia|]. destruct (Z.ltb_spec 9 (Z.of_nat k)); [lia|]. apply Nat2Z.id. }
+  rewrite Ec. cbv zeta. unfold ymd_text, hms_text.
   rewrite !padz_nonneg by lia.
-  rewrite (padnn_small 4) by (try rewrite pow4; lia).
-  rewrite !(padnn_small 2) by (try rewrite pow2; lia).
-  cbn [app]. rewrite <- !app_assoc. cbn [app]. rewrite <- !app_assoc. cbn [app]. reflexivity.
+  rewrite (padnn_small 4) by (try change (10 ^ Z.of_nat 4) with 10000; lia).
+  rewrite !(padnn_small 2) by (try change (10 ^ Z.of_nat 2) with 100; lia).
+  destruct k as [|k'].
+  - destruct loc; cbn [time_parts]; unfold LOCAL_PARTS, ISO_PARTS; cbn [render];
+      change (field "Y" x ns) with (digs 4 (tm_y x)); change (field "m" x ns) with (digs 2 (tm_mo x));
+      change (field "d" x ns) with (digs 2 (tm_d x)); change (field "H" x ns) with (digs 2 (tm_h x));
+      change (field "M" x ns) with (digs 2 (tm_mi x)); change (field "S" x ns) with (digs 2 (tm_s x));
+      repeat (rewrite <- app_assoc; cbn [app]); rewrite ?app_nil_r; reflexivity.
+  - assert (Etp : time_parts loc (S k') = if loc then local_parts_k (kdigit (S k')) else iso_parts_k (kdigit (S k'))) by reflexivity.
+    rewrite Etp. clear Etp Ec. assert (Hk1 : (1 <= S k' <= 9)%nat) by lia. revert Hk1. generalize (S k'). intros k Hk1.
+    rewrite (padnn_small k) by (try (apply frac_value_range; lia); lia).
+    destruct loc; unfold local_parts_k, iso_parts_k; cbn [render]; rewrite field_frac by lia;
+      change (field "Y" x ns) with (digs 4 (tm_y x)); change (field "m" x ns) with (digs 2 (tm_mo x));
+      change (field "d" x ns) with (digs 2 (tm_d x)); change (field "H" x ns) with (digs 2 (tm_h x));
+      change (field "M" x ns) with (digs 2 (tm_mi x));
+      repeat (rewrite <- app_assoc; cbn [app]); rewrite ?app_nil_r; reflexivity.
+Qed.
+
+Lemma time_parts_ok loc k : (k <= 9)%nat -> format_ok [] (time_parts loc k) = true.
+Proof.
+  intros Hk. assert (C : (k = 0 \/ k = 1 \/ k = 2 \/ k = 3 \/ k = 4 \/ k = 5 \/ k = 6 \/ k = 7 \/ k = 8 \/ k = 9)%nat) by lia.
+  destruct loc; destruct C as [->|[->|[->|[->|[->|[->|[->|[->|[->| ->]]]]]]]]]; vm_compute; reflexivity.
+Qed.
+
+Lemma time_parts_fmt loc k : (k <= 9)%nat ->
+  flat_parse (time_parts loc k) = (if loc then LOCAL_FMT else ISO_FMT) /\ last_frac (time_parts loc k) 0 = k.
+Proof.
+  intros Hk. assert (C : (k = 0 \/ k = 1 \/ k = 2 \/ k = 3 \/ k = 4 \/ k = 5 \/ k = 6 \/ k = 7 \/ k = 8 \/ k = 9)%nat) by lia.
+  destruct loc; destruct C as [->|[->|[->|[->|[->|[->|[->|[->|[->| ->]]]]]]]]]; vm_compute; split; reflexivity.
+Qed.
+
+(* the text of sec2gmt / sec2localtime with k = 0..9 decimals is parsed back, by the format gmt2sec / localtime2sec use,
+   to the instant truncated to k decimals *)
+Theorem strp_exact_fmt_time loc t ns k : LO <= t <= HI -> 0 <= ns < 1000000000 -> (k <= 9)%nat ->
+  strp_exact (fmt_time loc t ns (Z.of_nat k)) (if loc then LOCAL_FMT else ISO_FMT) = POk (t * 1000000000 + trunc_ns k ns).
+Proof.
+  intros Ht Hns Hk. rewrite (fmt_time_render loc t ns k Ht Hns Hk).
+  pose proof (strptime_render [] (time_parts loc k) t ns (time_parts_ok loc k Hk) Ht Hns) as E. cbn [app] in E.
+  destruct (time_parts_fmt loc k Hk) as [E1 E2]. rewrite E1, E2 in E. exact E.
 Qed.
 
 Theorem strp_exact_sec2gmt n : LO <= n <= HI -> strp_exact (sec2gmt_int n 0) ISO_FMT = POk (n * 1000000000).
 Proof.
-  intros Hn. rewrite (sec2gmt_int_text n Hn). cbv zeta.
-  pose proof (tm_year_range n Hn) as Hy. pose proof (tm_of_sec_fields n) as Hf. cbv zeta in Hf.
-  destruct Hf as (Hv & Hh & Hmi & Hs).
-  rewrite strp_exact_iso by assumption.
-  f_equal. pose proof (sec_of_tm_of_sec n) as E. unfold sec_of_tm in E. rewrite E. reflexivity.
+  intros Hn. pose proof (strp_exact_fmt_time false n 0 0 Hn ltac:(lia) ltac:(lia)) as E.
+  change (Z.of_nat 0) with 0 in E. unfold sec2gmt_int. rewrite E. f_equal. rewrite trunc_ns_0 by lia. lia.
 Qed.
 
 Corollary gmt2sec_exact_sec2gmt n : LO <= n <= HI -> gmt2sec_exact (sec2gmt_int n 0) = Some n.
@@ -155,4 +89,22 @@ Corollary gmt2nsec_sec2gmt n :
   LO <= n <= HI -> MIN64 <= n * 1000000000 <= MAX64 -> gmt2nsec (sec2gmt_int n 0) = POk (n * 1000000000).
 Proof.
   intros Hn Hr. unfold gmt2nsec, strpntime. rewrite (strp_exact_sec2gmt n Hn). now rewrite wrap64_id.
+Qed.
+
+(* nsec2gmt with k decimals parsed back by gmt2nsec: the nanoseconds truncated to k decimals *)
+Lemma trunc_ns_range k ns : 0 <= ns < 1000000000 -> 0 <= trunc_ns k ns <= ns.
+Proof.
+  intros H. unfold trunc_ns. pose proof (pow10_pos (9 - k)) as P.
+  pose proof (Z.mul_div_le ns (pow10 (9 - k)) P). pose proof (Z.div_pos ns (pow10 (9 - k)) ltac:(lia) P). nia.
+Qed.
+
+Theorem gmt2nsec_nsec2gmt t ns k :
+  LO <= t <= HI -> 0 <= ns < 1000000000 -> (k <= 9)%nat -> MIN64 <= t * 1000000000 -> t * 1000000000 + ns <= MAX64 ->
+  gmt2nsec (nsec2gmt (t * 1000000000 + ns) (Z.of_nat k)) = POk (t * 1000000000 + trunc_ns k ns).
+Proof.
+  intros Ht Hns Hk H1 H2. unfold nsec2gmt.
+  replace ((t * 1000000000 + ns) / 1000000000) with t by (symmetry; rewrite Z.add_comm, Z.div_add by lia; rewrite Z.div_small by lia; lia).
+  replace ((t * 1000000000 + ns) mod 1000000000) with ns by (symmetry; rewrite Z.add_comm, Z.mod_add by lia; apply Z.mod_small; lia).
+  unfold gmt2nsec, strpntime. rewrite (strp_exact_fmt_time false t ns k Ht Hns Hk).
+  pose proof (trunc_ns_range k ns Hns). rewrite wrap64_id by lia. reflexivity.
 Qed.
